@@ -102,6 +102,8 @@ def pool_a():
         ('int0', 0), ('int2', 2), ('int-8', -8), ('int1000', 1000), ('true', True), ('dt9999', DT_MAX), ('dt0100', DT_MIN),
         ('[inf]', [math.inf]), ('selfarr', selfarr()), ("''", ''), ("'a'", 'a'),
         ('date', D_DATE), ('naive', D_NAIVE), ('aware+2', D_AWARE_P2), ('aware-5', D_AWARE_M5), ('aware-later', D_AWARE_LATER),
+        # fractional exponents on both sides of 1 and -1, and two more negative bases (|b| < 1 and |b| huge)
+        ('1.5', 1.5), ('-1.5', -1.5), ('2.5', 2.5), ('-0.5', -0.5), ('-0.25', -0.25), ('-1e+10', -1e10),
     ]
 
 
@@ -117,7 +119,7 @@ def pool_lib8():
     return [('null', None), ('0', 0), ('1', 1.0), ('nan', math.nan), ("'a'", 'a'), ('selfarr', selfarr()), ('{a:1}', {'a': 1}), ('fnRaise', cb_raise)]
 
 
-N_A = 31
+N_A = 37
 N_LIB = 19
 N_LIB8 = 8
 
